@@ -16,7 +16,12 @@ RULE = ('natural: one random compound (elements, isotopes, ions, isotope ions, D
         'natural_density=) and the attribute; default: every element (exhaustive) and sampled isotopes/ions as one-atom '
         'formulas in five spellings; replace: compound x (source, target != source, portion in {0,1} u U(0,1)) with and '
         'without density; volume: compound x (five lattice names, numeric packing factors, default) and lattice cells '
-        'with positive Gram determinant in six argument conventions. distinct = (check, derivation shape of the compound '
+        'with positive Gram determinant in six argument conventions; history: ONE formula object is given a density '
+        '(keyword / attribute / tag, natural or not), then a random sequence of conversions (read natural_density, set '
+        'natural_density, set density), in-place changes of the composition (+= a compound of other isotopic content, '
+        'assignment to .structure, change_table to a private table) and derived objects (n*f, formula(f), replace) that '
+        'are changed and converted in turn; every conversion is judged against the model ratio of the composition at '
+        'that moment. distinct = (check, derivation shape of the compound '
         'or mixture, route / portion class / packing or argument convention); trivial cases (formulas whose natural mass '
         'ratio is exactly 1 for the natural-density checks) are executed but not counted as non-trivial')
 SHARDS = {'quick': 8, 'thorough': 16}
@@ -183,6 +188,12 @@ def setup(ctx):
     _s['radius'] = {el.number: el.covalent_radius for el in pt.elements if el.covalent_radius is not None}
     _s['lookup'] = lambda k: lookup(pt.elements, tuple(k))
     _s['lib'] = Lib(pt.formula, pt.mix_by_weight, pt.mix_by_volume, _s['lookup'])
+    from periodictable import core, mass as mass_mod, density as density_mod
+    pt.elements.H.mass, pt.elements.H.density       # the public groups are loaded first
+    private = core.PeriodicTable('c12_private_%d' % ctx.shard)
+    mass_mod.init(private)
+    density_mod.init(private)
+    _s['private'] = private
     for name, v in PACKING.items():
         if abs(v - PACKING_DOC[name]) > 6e-6:
             raise ModelError('own packing factor table disagrees with the documented value of %s' % name)
@@ -214,6 +225,9 @@ def setup(ctx):
         ctx.require('replace.unknown-density', 1, 'substitutions on formulas of unknown density')
         ctx.require('replace.partial', 1, 'partial substitutions')
         ctx.require('replace.target-present', 1, 'substitutions whose target is already in the formula')
+        ctx.require('history.ratio-changed-in-place', 1, 'conversions after an in-place change of the isotopic content')
+        for name in ('iadd', 'assign', 'change-table', 'mul', 'copy', 'replace'):
+            ctx.require('history.op.' + name, 1, 'histories must contain this operation')
 
 
 def finish(ctx):
@@ -594,8 +608,150 @@ def check_cell(ctx, case):
     ctx.distinct_case(('cell', style, round(al / 15), round(be / 15), round(ga / 15)))
 
 
+# --------------------------------------------------------------------------
+# histories on one formula object: conversions after the composition changed in place
+# --------------------------------------------------------------------------
+def _comp_add(a, b, n=1.0):
+    out = dict(a)
+    for k, c in b.items():
+        out[k] = out.get(k, 0.0) + n * c
+    return out
+
+
+def check_history(ctx, case):
+    """One Formula object is given a density, converted, CHANGED IN PLACE (+=, assignment to .structure,
+    change_table), and converted again; products and copies made after a conversion are changed and converted
+    too.  Every conversion is judged against the model ratio of the composition the object has at that moment."""
+    import periodictable as pt
+    from ..gen.mixtures import frac, struct_fold
+    parts = case['parts']
+    comps = [{k: float(c) for k, c in struct_fold(p['struct']).items()} for p in parts]
+    rho0 = float(frac(case['rho']))
+    how = case['start']
+    text = parts[0]['text']
+    problems = []
+
+    def R(comp):
+        return _ratio(comp)
+
+    # start: the formula gets its density through one of the documented routes
+    if how == 'kw-density':
+        f = pt.formula(text, density=rho0)
+    elif how == 'kw-natural':
+        f = pt.formula(text, natural_density=rho0)
+    elif how == 'tag':
+        f = pt.formula(text + '@' + case['rho'])
+    elif how == 'tag-natural':
+        f = pt.formula(text + '@' + case['rho'] + 'n')
+    elif how == 'attr-density':
+        f = pt.formula(text)
+        f.density = rho0
+    elif how == 'attr-natural':
+        f = pt.formula(text)
+        f.natural_density = rho0
+    else:
+        raise ModelError('unknown start %r' % how)
+    comp = comps[0]
+    want_d = rho0 / R(comp) if 'natural' in how else rho0
+    _close(ctx, f.density, want_d, 'history-start', problems, 'start %s %r: density' % (how, case['rho']))
+    live = []                     # objects left behind, verified again at the end
+    trail = ['formula(%r) [%s %s]' % (text, how, case['rho'])]
+    table = [None]                # None = public
+
+    def fresh(j):
+        g = pt.formula(parts[j]['text'])
+        if table[0] is not None:
+            g.change_table(table[0])
+        return g
+
+    def verify(obj, comp, label):
+        d = obj.density
+        if d is None:
+            ctx.count('history.unknown-density')
+            return
+        _close(ctx, obj.natural_density, d * R(comp), 'history-relation', problems,
+               '%s: natural_density with density %r and model mass ratio %r of the current composition'
+               % (label, d, R(comp)))
+
+    changed = False
+    for op in case['ops']:
+        kind = op[0]
+        before = R(comp)
+        if kind == 'read':
+            verify(f, comp, ' -> '.join(trail))
+        elif kind == 'set-natural':
+            rho = float(frac(op[1]))
+            f.natural_density = rho
+            trail.append('.natural_density = %s' % op[1])
+            _close(ctx, f.density, rho / R(comp), 'history-set-natural', problems,
+                   '%s: density (model mass ratio of the current composition %r)' % (' -> '.join(trail), R(comp)))
+            if op[2]:
+                _close(ctx, f.natural_density, rho, 'history-invert', problems, '%s: read back' % ' -> '.join(trail))
+        elif kind == 'set-density':
+            rho = float(frac(op[1]))
+            f.density = rho
+            trail.append('.density = %s' % op[1])
+            if op[2]:
+                _close(ctx, f.natural_density, rho * R(comp), 'history-set-density', problems,
+                       '%s: natural_density (model mass ratio of the current composition %r)'
+                       % (' -> '.join(trail), R(comp)))
+        elif kind == 'iadd':
+            g = fresh(op[1])
+            f += g
+            comp = _comp_add(comp, comps[op[1]])
+            trail.append('+= formula(%r)' % parts[op[1]]['text'])
+            ctx.count('history.op.iadd')
+        elif kind == 'assign':
+            f.structure = fresh(op[1]).structure
+            comp = dict(comps[op[1]])
+            trail.append('.structure = formula(%r).structure' % parts[op[1]]['text'])
+            ctx.count('history.op.assign')
+        elif kind == 'change-table':
+            table[0] = _s['private']
+            f.change_table(table[0])
+            trail.append('.change_table(private)')
+            ctx.count('history.op.change-table')
+        elif kind in ('mul', 'copy'):
+            live.append((f, comp, ' -> '.join(trail)))
+            if kind == 'mul':
+                n = _number(op[1], op[2])
+                f = n * f
+                comp = {k: float(n) * c for k, c in comp.items()}
+                trail = ['(%r * (%s))' % (n, ' -> '.join(trail))]
+            else:
+                f = pt.formula(f)
+                trail = ['formula(%s)' % ' -> '.join(trail)]
+            ctx.count('history.op.' + kind)
+        elif kind == 'replace':
+            src, tgt, portion = tuple(op[1]), tuple(op[2]), op[3]
+            live.append((f, comp, ' -> '.join(trail)))
+            f = f.replace(_s['lookup'](src), _s['lookup'](tgt), portion)
+            del _s['post_failures'][:]       # the substitution itself is judged by the replace check
+            if src in comp:
+                comp = dict(comp)
+                n = comp.pop(src)
+                comp[tgt] = comp.get(tgt, 0.0) + n * portion
+                if portion != 1:
+                    comp[src] = n * (1 - portion)
+            trail = ['(%s).replace(%r, %r, %r)' % (' -> '.join(trail), src, tgt, portion)]
+            ctx.count('history.op.replace')
+        else:
+            raise ModelError('unknown op %r' % (op,))
+        if abs(R(comp) / before - 1) > 1e-9:
+            changed = True
+            if kind in ('iadd', 'assign'):
+                ctx.count('history.ratio-changed-in-place')
+    verify(f, comp, ' -> '.join(trail))
+    for obj, c, label in live:
+        verify(obj, c, label + ' (left behind)')
+    if problems:
+        ctx.violation(problems[0], problems=problems[:5], ops=[o[0] for o in case['ops']], start=how)
+    if changed:
+        ctx.distinct_case(('history', case.get('shape'), how, tuple(o[0] for o in case['ops'])))
+
+
 CHECKS = {'natural': check_natural, 'group_tag': check_group_tag, 'default': check_default,
-          'replace': check_replace, 'volume': check_volume, 'cell': check_cell}
+          'replace': check_replace, 'volume': check_volume, 'cell': check_cell, 'history': check_history}
 
 
 # --------------------------------------------------------------------------
@@ -618,6 +774,69 @@ def _atom_key(rng, table, zs=None):
     A = rng.choice(el.isotopes) if (el.isotopes and rng.random() < 0.4) else 0
     q = rng.choice(el.ions) if (el.ions and rng.random() < 0.35) else 0
     return (el.number, A, q)
+
+
+FIXED_PARTS = [{'text': 'D2O', 'struct': [['2', ['a', 1, 2, 0]], ['1', ['a', 8, 0, 0]]]},
+               {'text': 'H2O', 'struct': [['2', ['a', 1, 0, 0]], ['1', ['a', 8, 0, 0]]]},
+               {'text': 'H[1]2O[18]', 'struct': [['2', ['a', 1, 1, 0]], ['1', ['a', 8, 18, 0]]]},
+               {'text': 'Li[6]F', 'struct': [['1', ['a', 3, 6, 0]], ['1', ['a', 9, 0, 0]]]},
+               {'text': 'NaCl', 'struct': [['1', ['a', 11, 0, 0]], ['1', ['a', 17, 0, 0]]]},
+               {'text': 'U[235]O2', 'struct': [['1', ['a', 92, 235, 0]], ['2', ['a', 8, 0, 0]]]}]
+
+
+def _history_case(rng, fg):
+    from ..gen.mixtures import decimal_text, log_uniform, struct_fold
+
+    def rho():
+        return decimal_text(rng, log_uniform(rng, -2, 1.4), maxsig=6)
+
+    parts = []
+    for _ in range(rng.randint(2, 4)):
+        if rng.random() < 0.35:
+            parts.append(dict(rng.choice(FIXED_PARTS)))
+        else:
+            parts.append(_compound(fg, rng)[0])
+    keys = set()
+    for p in parts:
+        keys.update(struct_fold(p['struct']))
+    ops = []
+    private = False
+    replaced = False
+    nops = rng.randint(2, 7)
+    while len(ops) < nops:
+        r = rng.random()
+        if r < 0.18:
+            ops.append(['read'])
+        elif r < 0.32:
+            ops.append(['set-natural', rho(), rng.random() < 0.5])
+        elif r < 0.44:
+            ops.append(['set-density', rho(), rng.random() < 0.7])
+        elif r < 0.68:
+            ops.append(['iadd', rng.randrange(1, len(parts))])
+        elif r < 0.74:
+            ops.append(['assign', rng.randrange(1, len(parts))])
+        elif r < 0.84:
+            numtype = rng.choice(['int', 'float', 'numpy'])
+            n = rng.randint(2, 9) if numtype == 'int' else round(10 ** rng.uniform(-3, 3), rng.randint(0, 6)) or 2.5
+            ops.append(['mul', n, numtype])
+        elif r < 0.90:
+            ops.append(['copy'])
+        elif r < 0.95:
+            if not replaced:
+                ops.append(['change-table'])
+                private = True
+        elif not private:
+            src = rng.choice(sorted(keys))
+            tgt = rng.choice([k for k in [(1, 2, 0), (1, 0, 0), (8, 18, 0), (6, 13, 0), (3, 6, 0)] if k != src])
+            ops.append(['replace', list(src), list(tgt), rng.choice([1, 1, rng.random()])])
+            replaced = True
+    # a conversion before and after the first in-place change, so that nothing kept from the first can hide
+    first = next((i for i, o in enumerate(ops) if o[0] in ('iadd', 'assign')), None)
+    if first is None:
+        ops.append(['iadd', rng.randrange(1, len(parts))])
+    return {'parts': [{'text': p['text'], 'struct': p['struct']} for p in parts], 'shape': parts[0].get('shape', parts[0]['text']),
+            'rho': rho(), 'ops': ops,
+            'start': rng.choice(['kw-density', 'kw-natural', 'tag', 'tag-natural', 'attr-density', 'attr-natural'])}
 
 
 def generate(ctx):
@@ -652,7 +871,11 @@ def generate(ctx):
         i += 1
 
     n = ctx.scale(900, 8000)
+    nh = ctx.scale(150, 1500)
+    hevery = max(1, n // nh)
     for j in range(n):
+        if j % hevery == 0:
+            yield 'history', _history_case(rng, fg)
         r = rng.random()
         if r < 0.22:
             case, den = _compound(fg, rng)
